@@ -10,6 +10,28 @@ thread_local! {
     static PEAK: Cell<usize> = const { Cell::new(0) };
     static TOTAL: Cell<usize> = const { Cell::new(0) };
     static LARGEST: Cell<usize> = const { Cell::new(0) };
+    /// budgets enforced during `measure_with_budget` (0 = none): live bytes above the start level, cumulative bytes
+    static BUDGET_PEAK: Cell<usize> = const { Cell::new(0) };
+    static BUDGET_TOTAL: Cell<usize> = const { Cell::new(0) };
+    static START: Cell<usize> = const { Cell::new(0) };
+}
+
+/// true if the request must be refused: the allocation then fails, Rust aborts the process and the
+/// parent of the worker process pinpoints the input (a runaway allocation never finishes otherwise)
+fn over_budget(size: usize) -> bool {
+    let peak = BUDGET_PEAK.try_with(|b| b.get()).unwrap_or(0);
+    if peak != 0 {
+        let cur = CUR.try_with(|c| c.get()).unwrap_or(0);
+        let start = START.try_with(|c| c.get()).unwrap_or(0);
+        if cur.saturating_sub(start).saturating_add(size) > peak {
+            return true;
+        }
+    }
+    let total = BUDGET_TOTAL.try_with(|b| b.get()).unwrap_or(0);
+    if total != 0 && TOTAL.try_with(|t| t.get()).unwrap_or(0).saturating_add(size) > total {
+        return true;
+    }
+    false
 }
 
 fn on_alloc(size: usize) {
@@ -36,6 +58,9 @@ fn on_free(size: usize) {
 
 unsafe impl GlobalAlloc for Counting {
     unsafe fn alloc(&self, layout: Layout) -> *mut u8 {
+        if over_budget(layout.size()) {
+            return std::ptr::null_mut();
+        }
         let p = System.alloc(layout);
         if !p.is_null() {
             on_alloc(layout.size());
@@ -47,6 +72,9 @@ unsafe impl GlobalAlloc for Counting {
         on_free(layout.size());
     }
     unsafe fn alloc_zeroed(&self, layout: Layout) -> *mut u8 {
+        if over_budget(layout.size()) {
+            return std::ptr::null_mut();
+        }
         let p = System.alloc_zeroed(layout);
         if !p.is_null() {
             on_alloc(layout.size());
@@ -54,6 +82,9 @@ unsafe impl GlobalAlloc for Counting {
         p
     }
     unsafe fn realloc(&self, ptr: *mut u8, layout: Layout, new_size: usize) -> *mut u8 {
+        if new_size > layout.size() && over_budget(new_size - layout.size()) {
+            return std::ptr::null_mut();
+        }
         let p = System.realloc(ptr, layout, new_size);
         if !p.is_null() {
             on_free(layout.size());
@@ -79,4 +110,16 @@ pub fn measure<T>(f: impl FnOnce() -> T) -> (T, Usage) {
     let r = f();
     let u = Usage { peak_over_start: PEAK.with(|p| p.get()).saturating_sub(start), total: TOTAL.with(|t| t.get()), largest: LARGEST.with(|l| l.get()) };
     (r, u)
+}
+
+/// As `measure`, but allocations beyond the budgets fail (which aborts the process): only for use
+/// in worker processes whose parent handles the crash.
+pub fn measure_with_budget<T>(peak: usize, total: usize, f: impl FnOnce() -> T) -> (T, Usage) {
+    START.with(|s| s.set(CUR.with(|c| c.get())));
+    BUDGET_PEAK.with(|b| b.set(peak));
+    BUDGET_TOTAL.with(|b| b.set(total));
+    let r = measure(f);
+    BUDGET_PEAK.with(|b| b.set(0));
+    BUDGET_TOTAL.with(|b| b.set(0));
+    r
 }
